@@ -81,6 +81,25 @@ RLookup(p, cdrive, cd, f) ==     \* "yes" / "no" / "either"
     ELSE IF CharEq(q.dir, f.dir) THEN "either"
     ELSE "no"
 
+\* the catalogue walk behind type/list/dump (Catalog::find_catalog_entry_for_name): a catalogue is a sequence of
+\* fragments (Watford: two), each a sequence of entries [dir, name]; the file exists iff some entry of some fragment is it
+RFind(frags, qdir, qname) ==      \* "yes" / "no" / "either"
+    LET hit(e) == SeqCharEq(e.name, qname) IN
+    IF \E i \in 1..Len(frags) : \E j \in 1..Len(frags[i]) : hit(frags[i][j]) /\ frags[i][j].dir = qdir THEN "yes"
+    ELSE IF \E i \in 1..Len(frags) : \E j \in 1..Len(frags[i]) : hit(frags[i][j]) /\ CharEq(frags[i][j].dir, qdir) THEN "either"
+    ELSE "no"
+\* M: every fragment in turn, every entry of it
+RECURSIVE MFindFrom(_, _, _, _, _)
+MFindFrom(frags, i, j, qdir, qname) ==
+    IF i > Len(frags) THEN FALSE
+    ELSE IF j > Len(frags[i]) THEN MFindFrom(frags, i + 1, 1, qdir, qname)
+    ELSE IF SeqCharEq(frags[i][j].name, qname) /\ Up(frags[i][j].dir) = Up(qdir) THEN TRUE
+    ELSE MFindFrom(frags, i, j + 1, qdir, qname)
+FindMeetsR == \A a, b \in {<<[dir |-> 36, name |-> <<65>>]>>, <<[dir |-> 65, name |-> <<97>>], [dir |-> 36, name |-> <<49>>]>>, <<>>} :
+                \A qd \in {36, 65, 97}, qn \in {<<65>>, <<97>>, <<49>>, <<94>>} :
+                   LET r == RFind(<<a, b>>, qd, qn) m == MFindFrom(<<a, b>>, 1, 1, qd, qn) IN
+                   (r = "yes" => m) /\ (r = "no" => ~m)
+
 -----------------------------------------------------------------------------
 (* M: afsp.cc *)
 RECURSIVE NumStr(_)
